@@ -1,4 +1,5 @@
 // ===== prelude/core.rs : stand-in environment shared by all groups (TRUSTED: every ASSUME(..) below) =====
+#![feature(allocator_api)]
 #![allow(unused_imports, dead_code, unused_variables, unused_mut, non_snake_case)]
 use vstd::prelude::*;
 use vstd::std_specs::ops::*;
@@ -26,6 +27,10 @@ pub trait MatrixElement: Copy + Default {
 }
 impl MatrixElement for u8 {
     open spec fn default_value() -> u8 { 0 }
+    proof fn default_ok() {}
+}
+impl MatrixElement for f32 {
+    open spec fn default_value() -> f32 { 0.0f32 }
     proof fn default_ok() {}
 }
 impl MatrixElement for usize {
@@ -68,7 +73,9 @@ pub trait Alphabet: Sized {
     fn symbols() -> (r: &'static [Self::Symbol]) ensures r@ == Self::symbols_spec();
 }
 
+#[derive(Debug)]
 pub struct InvalidSymbol(pub char);
+#[derive(Debug)]
 pub struct InvalidData;
 
 // ASSUME(A-GA1): `generic_array::GenericArray<T, N>` behaves as `[T; N::USIZE]`.
@@ -95,8 +102,48 @@ impl<T, N: Unsigned> GenericArray<T, N> {
     { unimplemented!() }
 }
 
+impl<T: MatrixElement, N: Unsigned> GenericArray<T, N> {
+    // ASSUME(A-GA1): `GenericArray::default()` is `[T::default(); N]`
+    #[verifier::external_body]
+    pub fn default() -> (r: Self)
+        ensures forall|j: int| 0 <= j < N::USIZE ==> (#[trigger] r@[j]) == T::default_value()
+    { unimplemented!() }
+}
+impl<T, N: Unsigned> IndexSpecImpl<usize> for GenericArray<T, N> {
+    open spec fn index_req(&self, i: &usize) -> bool { *i < N::USIZE }
+}
+impl<T, N: Unsigned> Index<usize> for GenericArray<T, N> {
+    type Output = T;
+    // ASSUME(A-GA1)
+    #[verifier::external_body]
+    fn index(&self, index: usize) -> (r: &T) ensures *r == self@[index as int] { unimplemented!() }
+}
+impl<T, N: Unsigned> IndexMut<usize> for GenericArray<T, N> {
+    // ASSUME(A-GA1)
+    #[verifier::external_body]
+    fn index_mut(&mut self, index: usize) -> (r: &mut T)
+        ensures *r == old(self)@[index as int], final(self)@ == old(self)@.update(index as int, *final(r))
+    { unimplemented!() }
+}
+
+// ASSUME(A-V1): `Vec::resize_with(n, f)` truncates or appends values produced by `f`
+pub assume_specification<T, A: core::alloc::Allocator, F: FnMut() -> T>[ Vec::<T, A>::resize_with ](v: &mut Vec<T, A>, new_len: usize, f: F)
+    ensures
+        final(v)@.len() == new_len,
+        forall|i: int| 0 <= i < new_len && i < old(v)@.len() ==> final(v)@[i] == old(v)@[i],
+        forall|i: int| old(v)@.len() <= i < new_len ==> call_ensures(f, (), #[trigger] final(v)@[i]);
+
+// ASSUME(A-V1): `Vec::capacity` has no observable effect on contents (no postcondition is assumed)
+pub assume_specification<T, A: core::alloc::Allocator>[ Vec::<T, A>::capacity ](v: &Vec<T, A>) -> usize;
+
 // ---- the real `dense::DenseMatrix` data layout (dense.rs), derives and repr(align) dropped ----
 pub struct Row<T, C> { pub a: GenericArray<T, C> }
+// ASSUME(A-D1): `#[derive(Default)]` on `Row` is field-wise
+impl<T: MatrixElement, C: Unsigned> Default for Row<T, C> {
+    fn default() -> (r: Self)
+        ensures forall|j: int| 0 <= j < C::USIZE ==> (#[trigger] r.a@[j]) == T::default_value()
+    { Row { a: GenericArray::default() } }
+}
 pub struct DenseMatrix<T, C> { pub data: Vec<Row<T, C>>, pub rows: usize }
 pub struct MatrixCoordinates { pub row: usize, pub col: usize }
 
